@@ -93,3 +93,8 @@ add("C08", "fault_enumeration",
     "Held on the executions explored: for every (transport, fault kind, injection point) cell and pending-call count every pending call ended with an error (or with its own complete answer), within the watchdog, with the right context error on cancellation; after Close, and on the server after the peers vanished, goroutines with library frames, connections, fds, child processes and pending-table entries were back at the baseline for N and 2N calls.",
     "Byte offsets and cancellation instants are sampled (coverage.exhaustive is not claimed). 'Promptly' is the bounded restatement <= 10 s with a dump showing the call parked in a library frame. Pooled idle keep-alive connections are not leaks (CloseIdleConnections is called first).",
     "DESIGN.md section 4 C08")
+add("C07", "exploration",
+    "runtime monitoring: library-free scripted servers (raw-TCP HTTP for Streamable JSON / SSE / GET stream and legacy SSE; scripted stdio child) emit class-labelled adversarial fragments before / inside / after a valid answer; the client under test runs in child processes; oracles: process liveness, call outcome vs. what the script contained, pending and later calls, later frames (notifications / roots requests), Close, and an idle-CPU spin monitor",
+    "Held on the executions explored: for every generated script and placement on the five client kinds the client neither died nor span, the affected call returned an error (or a valid result only when the script held a valid answer for its id), pending and later calls completed, later well-formed frames were processed, and Close returned.",
+    "Every script ends the exchange (valid answer, connection close, or the harness's deadline): a client facing an open silent connection is not expected to give up by itself. Spin = sustained CPU of a busy reader goroutine over idle windows, not a single timing sample.",
+    "DESIGN.md section 4 C07")
